@@ -224,7 +224,7 @@ func topoFixed(out *common.Out) {
 
 // ORD <o1> | <o2> ...: the struct literals {o1...} & {o2...} unified in ONE
 // expression; field order as reported by Value.Fields and by Value.Syntax.
-func ordSource(orders [][]string) string {
+func ordSource(orders [][]string, shape string) string {
 	val := map[string]int{}
 	var lits []string
 	for _, o := range orders {
@@ -238,6 +238,29 @@ func ordSource(orders [][]string) string {
 		}
 		lits = append(lits, "{"+strings.Join(fs, ", ")+"}")
 	}
+	switch shape {
+	case "implicit":
+		return "x: " + strings.Join(lits, "\nx: ") + "\n"
+	case "embed":
+		return "x: {\n\t" + strings.Join(lits, "\n\t") + "\n}\n"
+	case "refs":
+		var b strings.Builder
+		var names []string
+		for i, l := range lits {
+			fmt.Fprintf(&b, "s%d: %s\n", i, l)
+			names = append(names, fmt.Sprintf("s%d", i))
+		}
+		return b.String() + "x: " + strings.Join(names, " & ") + "\n"
+	case "refs-implicit":
+		var b strings.Builder
+		for i, l := range lits {
+			fmt.Fprintf(&b, "s%d: %s\n", i, l)
+		}
+		for i := range lits {
+			fmt.Fprintf(&b, "x: s%d\n", i)
+		}
+		return b.String()
+	}
 	return "x: " + strings.Join(lits, " & ") + "\n"
 }
 
@@ -248,10 +271,16 @@ func runOrdLine(line string) (result string) {
 		}
 	}()
 	var orders [][]string
-	for _, p := range strings.Split(line[4:], "|") {
+	shape := "explicit"
+	parts := strings.Split(line[4:], "|")
+	if strings.HasPrefix(line, "ORDX ") {
+		shape = strings.TrimSpace(parts[0]) // line[4:] starts after "ORDX"
+		parts = parts[1:]
+	}
+	for _, p := range parts {
 		orders = append(orders, strings.Fields(p))
 	}
-	src := ordSource(orders)
+	src := ordSource(orders, shape)
 	var first []string
 	for rep := 0; rep < 2; rep++ {
 		ctx := cuecontext.New()
@@ -301,10 +330,26 @@ func genOrdCase(r *common.Rng, out *common.Out, stats map[string]int) {
 	}
 	k := 2 + r.Intn(2)
 	var parts []string
+	cyc := r.Chance(1, 5)
 	for c := 0; c < k; c++ {
-		parts = append(parts, strings.Join(subseq(r, hidden, 1), " "))
+		if cyc {
+			// orders that need not be jointly consistent (cyclic field graphs)
+			o := slices.Clone(hidden)
+			common.Shuffle(r, o)
+			parts = append(parts, strings.Join(o[:1+r.Intn(n)], " "))
+		} else {
+			parts = append(parts, strings.Join(subseq(r, hidden, 1), " "))
+		}
 	}
-	stats["ord-consistent"]++
 	line := "ORD " + strings.Join(parts, " | ")
+	shape := "explicit"
+	if r.Chance(1, 2) {
+		shape = common.Pick(r, []string{"refs", "implicit", "embed", "refs-implicit"})
+		line = "ORDX " + shape + " | " + strings.Join(parts, " | ")
+	}
+	if cyc {
+		stats["ord-unrelated-orders"]++
+	}
+	stats["ord-"+shape]++
 	out.Emit(line, runOrdLine(line))
 }
